@@ -147,6 +147,8 @@ def diverges(n):
         return True
     if k in ('call', 'mcall') and n.get('t') == '!':
         return True
+    if k == 'call' and (n.get('f') or '').endswith('core::result::Result::Err') and n.get('dk') == 'Ctor':
+        return True             # `if bad { Err(e) } else { rest }`: the error VALUE of an arm leaves the function like `return Err(e)` does
     if k == 'block':
         for s in n.get('ss', []):
             if s.get('k') == 'semi' and (s.get('t') == '!' or diverges(s['e'])):
